@@ -15,7 +15,7 @@ from pyvc.speclib import (AND, OR, NOT, IMPLIES, IFF, ITE, EQ, IS_NONE, VAL, ISI
 from pyvc import speclib
 from pyvc import settheory as st
 from pyvc.settheory import (modset, padset, sumset, kfold_s, rangefold, singleton, SETEQ, MEM, SMIN, SMAX, WFSET, ALIGNED)
-from .common import (SERIALIZABLE, COMPOSITE, SERVICE, DELIMITED, PRIMITIVE, VOID_T, UNSIGNED_T, ATTRIBUTE, FIELD, PADDING,
+from .common import (VersionK, SERIALIZABLE, COMPOSITE, SERVICE, DELIMITED, PRIMITIVE, VOID_T, UNSIGNED_T, ATTRIBUTE, FIELD, PADDING,
                      CASTMODE, TRUNCATED, cast_mode_ord, POW2)
 from .c01 import D, BLS
 from . import c01  # noqa: the BitLengthSet contracts are used at every call site
@@ -182,8 +182,11 @@ def _ghost_def(self):
 @class_spec(SERIALIZABLE)
 class _SerializableSpec:
     fields = {}
+    whole_object = ["wft"]
 
-    def invariant(self):
+    def invariant(self, skip=()):
+        if "wft" in skip:
+            return {}
         return {"wft": OR(ISINST(self, "ServiceType"), lambda: WFT(self))}
 
 
@@ -277,7 +280,8 @@ class _DelimitedSpec:
              "extent": AND(EXTENT(self) == self._extent, self._extent >= 0, st.pmod(st._i(self._extent), 8) == 0
                            if smt() else self._extent % 8 == 0, self._extent >= EXTENT(self._inner)),
              "inner-not-service": NOT(ISINST(self._inner, "ServiceType", "DelimitedType")),
-             "header": AND(self._delimiter_header_type._bit_length == 32, cast_mode_ord(self._delimiter_header_type) == TRUNCATED)}
+             "header": AND(self._delimiter_header_type._bit_length == 32, cast_mode_ord(self._delimiter_header_type) == TRUNCATED),
+             "fields-serializable": _fields_ok(self)}
         d.update(_ghost_def(self))
         return d
 
@@ -411,7 +415,7 @@ for _cls in (UNSIGNED_T, "pydsdl._serializable._primitive.IntegerType"):
 @contract(COMPOSITE + ".__init__", props=["C05"])
 class _CompositeInitAssumed:
     """Names, versions, port-IDs, aggregation: the subject of C05.  Used here: it stores the attributes as given."""
-    params = dict(name=Str, attributes=SeqOf(ObjOf(ATTRIBUTE)), deprecated=Bool, fixed_port_id=Opt(Int),
+    params = dict(name=Str, version=VersionK, attributes=SeqOf(ObjOf(ATTRIBUTE)), deprecated=Bool, fixed_port_id=Opt(Int),
                   source_file_path=Str, has_parent_service=Bool, doc=Str)
     verify = False
     assumed = "CompositeType.__init__ is the subject of C05 (every check is stated and verified there)"
@@ -420,7 +424,9 @@ class _CompositeInitAssumed:
 
     def post(s):
         return {"attributes-stored": _seq_same_refs(s.self._attributes, s.attributes),
-                "fields-serializable": FORALL_IDX(FIELDS(s.self), lambda i, f: NOT(ISINST(f._data_type, "ServiceType")))}
+                "scalars-stored": AND(EQ(s.self._version, s.version), IFF(s.self._deprecated, s.deprecated),
+                                      EQ(s.self._fixed_port_id, s.fixed_port_id),
+                                      IFF(s.self._has_parent_service, s.has_parent_service))}
 
 
 def _seq_same_refs(a, b):
@@ -480,21 +486,34 @@ class _UnionAggregate:
                 "degenerate-one": IMPLIES(n == 1, lambda: SETEQ(D(s.result), L(AT(s.field_types, 0))))}
 
 
+def _attr_fields_serializable(s):
+    # domain of the property: serializable field types (a ServiceType is not serializable and never a field type of a
+    # type that pydsdl builds: DataTypeBuilder only wraps request/response into ServiceType at the very end)
+    return FORALL_IDX(FILTER(s.attributes, lambda a: ISINST(a, "Field")), lambda i, f: NOT(ISINST(f._data_type, "ServiceType")))
+
+
+_COMPOSITE_PARAMS = dict(name=Str, version=VersionK, attributes=SeqOf(ObjOf(ATTRIBUTE)), deprecated=Bool, fixed_port_id=Opt(Int),
+                         source_file_path=Str, has_parent_service=Bool, doc=Str)
+_COMPOSITE_RAISES = {"InvalidNameError": None, "InvalidVersionError": None, "AttributeNameCollisionError": None,
+                     "InvalidFixedPortIDError": None, "AggregationError": None}
+
+
 @contract(STRUCT + ".__init__", props=P)
 class _StructInit:
-    params = dict(name=Str, attributes=SeqOf(ObjOf(ATTRIBUTE)), deprecated=Bool, fixed_port_id=Opt(Int),
-                  source_file_path=Str, has_parent_service=Bool, doc=Str)
-    raises = {"InvalidNameError": None, "InvalidVersionError": None, "AttributeNameCollisionError": None,
-              "InvalidFixedPortIDError": None, "AggregationError": None}
+    params = _COMPOSITE_PARAMS
+    raises = dict(_COMPOSITE_RAISES)
+
+    def pre(s):
+        return {"field-types-serializable": _attr_fields_serializable(s)}
 
 
 @contract(UNION + ".__init__", props=P)
 class _UnionInit:
-    params = dict(name=Str, attributes=SeqOf(ObjOf(ATTRIBUTE)), deprecated=Bool, fixed_port_id=Opt(Int),
-                  source_file_path=Str, has_parent_service=Bool, doc=Str)
-    raises = {"InvalidNameError": None, "InvalidVersionError": None, "AttributeNameCollisionError": None,
-              "InvalidFixedPortIDError": None, "AggregationError": None,
-              "MalformedUnionError": lambda s: LEN(FILTER(s.attributes, lambda a: ISINST(a, "Field"))) < 2}
+    params = _COMPOSITE_PARAMS
+    raises = dict(_COMPOSITE_RAISES, MalformedUnionError=lambda s: LEN(FILTER(s.attributes, lambda a: ISINST(a, "Field"))) < 2)
+
+    def pre(s):
+        return {"field-types-serializable": _attr_fields_serializable(s)}
 
 
 @contract(DELIMITED + ".__init__", props=P + ["C05", "C14"])
